@@ -4,6 +4,7 @@
 //	R2  go f(a...)                                    ->  { f, a evaluated here; simrt.Go(func(){ f(a...) }) }
 //	R3  for k, v := range <map with ordered key>      ->  loop over simrt.Iter (seeded order)
 //	R4  os.ReadFile / ioutil.ReadFile                 ->  simrt.ReadFile
+//	R14 os.Open / os.Stat / os.File                   ->  simrt.Open / Stat / File (simulated disk: short reads, injected errors)
 //	R13 maps.Keys / maps.Values / maps.All (go 1.23)  ->  simrt.MapsKeys / MapsValues / MapsAll (seeded order)
 //	R6  chan T, make(chan T, n), ch <- v, <-ch, v, ok := <-ch, close(ch), len/cap(ch), range ch  ->  simrt.Chan[T]
 //	R7  sync.Once -> simrt.Once, time.Sleep -> simrt.Sleep, runtime.Gosched -> simrt.Yield
@@ -226,6 +227,13 @@ func rewriteFile(fs *fileState) {
 				fs.add(s, e, false, func() string { return "simrt.ReadFile" })
 				rep.Edits["R4 ReadFile"]++
 				needSimrt = true
+			case path == "os" && (name == "Open" || name == "Stat" || name == "File"):
+				// R14: files opened for reading are served by the simulated disk (short reads, injected errors)
+				s, e := fs.off(x.Pos()), fs.off(x.End())
+				nm := name
+				fs.add(s, e, false, func() string { return "simrt." + nm })
+				rep.Edits["R14 os."+name]++
+				needSimrt = true
 			case path == "context" && (name == "Context" || name == "CancelFunc" || name == "Background" || name == "TODO" || name == "WithCancel" ||
 				name == "WithTimeout" || name == "WithDeadline" || name == "WithValue"):
 				s, e := fs.off(x.Pos()), fs.off(x.End())
@@ -286,7 +294,7 @@ func rewriteFile(fs *fileState) {
 					unmanaged(x.Pos(), "reflect."+name+" (iteration order not controlled)")
 				case path == "math/rand" || path == "math/rand/v2" || path == "crypto/rand":
 					unmanaged(x.Pos(), path+"."+name)
-				case path == "os" && (name == "Open" || name == "OpenFile" || name == "Stat" || name == "ReadDir"):
+				case path == "os" && (name == "OpenFile" || name == "Lstat" || name == "ReadDir" || name == "Create" || name == "DirFS"):
 					unmanaged(x.Pos(), "os."+name+" (served by the real disk only)")
 				case path == "runtime" && (name == "Gosched" || name == "NumGoroutine" || name == "GOMAXPROCS"):
 					unmanaged(x.Pos(), "runtime."+name)
